@@ -134,7 +134,48 @@ func setCase[T comparable](c *core.Ctx, tname string, univ []T, less func(a, b T
 			},
 			func() bool { // Range: every member exactly once
 				seen := map[T]int{}
-				o.s.Range(func(v T) bool { seen[v]++; return true })
+				// a quarter of these observations make nested read-only calls on the same set
+				// from inside one callback (they may re-arrange the concurrent set's internal
+				// layout - promotion, miss counting - but not what the outer Range visits)
+				nestAt, visited, nestMsg := -1, 0, ""
+				if len(want) > 0 && r.Chance(1, 4) {
+					nestAt = r.Intn(len(want))
+				}
+				o.s.Range(func(v T) bool {
+					if visited == nestAt {
+						c.Count("nested_readonly_calls_in_range_callback", 1)
+						switch r.Intn(4) {
+						case 0:
+							inner := 0
+							o.s.Range(func(T) bool { inner++; return true })
+							if inner != len(want) {
+								nestMsg = fmt.Sprintf("nested Range made %d calls, the set has %d members", inner, len(want))
+							}
+						case 1:
+							if n := o.s.Len(); n != len(want) || !o.s.Has(v) {
+								nestMsg = fmt.Sprintf("nested Len()=%d Has(%v)=%v, the set has %d members", n, v, o.s.Has(v), len(want))
+							}
+						case 2:
+							if got := sortS(o.s.Slice()); !eqSlice(got, want) {
+								nestMsg = fmt.Sprintf("nested Slice() gives %v, members %v", got, want)
+							}
+						case 3:
+							if cl := o.s.Clone(); cl.Len() != len(want) {
+								nestMsg = fmt.Sprintf("nested Clone has %d members, the set has %d", cl.Len(), len(want))
+							}
+							for _, u := range univ[:min(len(univ), 6)] {
+								_ = o.s.Has(u) // misses included
+							}
+						}
+					}
+					visited++
+					seen[v]++
+					return true
+				})
+				if nestMsg != "" {
+					fail(op+":nested-read-in-Range["+o.impl+"]", fmt.Sprintf("after %s, inside a Range callback of %s: %s", op, o.name, nestMsg))
+					return false
+				}
 				if len(seen) != len(want) {
 					fail(op+":Range["+o.impl+"]", fmt.Sprintf("after %s, %s.Range visited %v, model %v", op, o.name, seen, want))
 					return false
@@ -389,6 +430,39 @@ func setCase[T comparable](c *core.Ctx, tname string, univ []T, less func(a, b T
 			if !checkSome(o, "construction-step", true) {
 				return nil
 			}
+		}
+		// peak and drain: every member removed one by one (not Clear), then the set is
+		// used again
+		if len(o.m) > 0 && r.Chance(1, 10) {
+			peak := len(o.m)
+			for _, v := range sorted(o.m) {
+				if !o.s.Remove(v) {
+					hist = append(hist, fmt.Sprintf("drain: %s.Remove(%v)", name, v))
+					fail("Remove:return["+impl+"]", fmt.Sprintf("draining %s (%d members): Remove(%v) of a member returned false", name, peak, v))
+					return nil
+				}
+				delete(o.m, v)
+				if r.Chance(1, 8) && !checkSome(o, "drain", true) {
+					return nil
+				}
+			}
+			hist = append(hist, fmt.Sprintf("%s drained by %d Remove calls", name, peak))
+			if !check(o, "drain") {
+				return nil
+			}
+			for i := 0; i < r.Intn(6); i++ {
+				v := univ[r.Intn(len(univ))]
+				hist = append(hist, fmt.Sprintf("%s.Add(%v)", name, v))
+				if got := o.s.Add(v); got != !o.m[v] {
+					fail("Add:return["+impl+"]", fmt.Sprintf("%s.Add(%v) after the drain returned %v, membership before was %v", name, v, got, o.m[v]))
+					return nil
+				}
+				o.m[v] = true
+			}
+			if !check(o, "refill") {
+				return nil
+			}
+			c.Count("sets_drained_by_remove_then_reused", 1)
 		}
 		for _, pc := range postChecks {
 			if !pc() {
